@@ -1,7 +1,8 @@
 (* C10 - every string is an acceptable pattern: no crashes, no invalid regexes.  Statements only. *)
 From WC Require Import Str WcParse WcSplit Expand.
 From WC.Gen Require Import Consts FlagFuns.
-From WC.Proofs Require Import C10Lemmas.
+From WC.Proofs Require Import C10Lemmas FuelLemmas GlobSplitLemmas.
+From WC Require Import GlobSplit.
 Import Mwcparse.
 Open Scope Z_scope.
 
@@ -18,3 +19,22 @@ Theorem C10_list_errors_documented :
     e = LLimit \/ e = LValue \/ e = LSyntax.
 Proof. exact pattern_lists_errs. Qed.
 Print Assumptions C10_list_errors_documented.
+
+(* Termination: the explicit fuel of the parser model is never the reason for its answer - for every platform record,
+   flag word, str/bytes mode and pattern.  (Every loop consumes input; rewinds never go back past the caller.) *)
+Theorem C10_parser_terminates : forall P flags b p, wcparse P flags b p <> inr EFuel.
+Proof. exact wcparse_never_out_of_fuel. Qed.
+Print Assumptions C10_parser_terminates.
+
+(* ... and under Unix rules the only error it can answer is the ValueError for an absolute pattern where forbidden,
+   which discharges the hypothesis of C10_list_errors_documented for the model's own parser *)
+Theorem C10_parser_errors_unix : forall flags b p e,
+  is_unix_style linux flags = true -> wcparse linux flags b p = inr e -> e = EValue.
+Proof. exact wcparse_errors_unix. Qed.
+Print Assumptions C10_parser_errors_unix.
+
+(* _GlobSplit never hands the walker an empty part list (Glob.glob reads parts[0] unconditionally), for every
+   pattern and flag word *)
+Theorem C10_globsplit_nonempty : forall flags b p parts, gsplit flags b p = inl parts -> parts <> [].
+Proof. intros flags b p parts H. exact (proj1 (gsplit_parts flags b p parts H)). Qed.
+Print Assumptions C10_globsplit_nonempty.
